@@ -280,14 +280,29 @@ func matchInnersToPolygons(polygons [][][][2]float64, innerRings [][][2]float64,
 		return polygons
 	}
 
+	// a polygon of which the outer ring is equal to one of the inner rings is cancelled by that ring: it encloses nothing,
+	// so no other inner ring is matched to it (such a ring is a hole of a polygon around it)
+	cancelledBy := make(map[int]int, lenPolygons)
+	for polyI := range polygons {
+		for innerI := range innerRings {
+			if ringsAreEqual(polygons[polyI][0], innerRings[innerI], true, false) {
+				cancelledBy[polyI] = innerI
+				break
+			}
+		}
+	}
+
 	var polyISortedByOuterAreaDesc []int
 	var innersTurnedOuters [][][2]float64
 matchInners:
-	for _, innerRing := range innerRings {
+	for innerI, innerRing := range innerRings {
 		containsPerPolyI := orderedmap.New[int, uint](orderedmap.WithCapacity[int, uint](lenPolygons)) // TODO don't need ordered map anymore?
 		// this is pretty nested, but usually breaks early
 		for _, vertex := range innerRing {
 			for polyI := range polygons {
+				if twinI, cancelled := cancelledBy[polyI]; cancelled && twinI != innerI {
+					continue
+				}
 				contains, _ := ringContains(polygons[polyI][0], vertex)
 				// it doesn't matter if on boundary or not, if not on boundary there could still be multiple (nested) matching polygons
 				if contains {
